@@ -98,6 +98,21 @@ class Server:
             self.stop()
         raise vlib.ToolError("agdb_server did not start")
 
+    def restart(self):
+        """starts the server again on the data it left (same directory, same port); the caller stopped it before"""
+        self.proc = subprocess.Popen([self.binary], cwd=self.dir, stdout=subprocess.DEVNULL, stderr=subprocess.DEVNULL)
+        for _ in range(150):
+            if self.proc.poll() is not None:
+                break
+            try:
+                if self.call("GET", "/status")[0] == 200:
+                    return
+            except Exception:
+                pass
+            time.sleep(0.1)
+        self.stop()
+        raise vlib.ToolError("agdb_server did not come up again after the restart")
+
     def stop(self):
         if self.proc and self.proc.poll() is None:
             self.proc.kill()
